@@ -7,7 +7,7 @@ ALL = ["C%02d" % i for i in range(1, 21)]
 # property -> (technique, level text, level_note, design section)
 CLAIMED = {
  "C18": ("Lean 4 proof (wildcmp = glob for all patterns/strings by loop invariant; range iteration = denoted progression by induction; "
-         "index run-length round trip) + correspondence of the executable model with the real code (exhaustive small + random)",
+         "index run-length round trip; print/parse round trips of ranges and index strings proved at STRING level through the tokenizer and stoi) + correspondence of the executable model with the real code (exhaustive small + random)",
          "Theorems for every pattern, string, range expression and index list about an executable model that mirrors the code loop by loop; "
          "the model is tied to the working tree on every run by running tools::wildcmp, RangeParser, xtp::IndexParser and BeadList::Generate "
          "in-process on exhaustive-small and random inputs and comparing with the model and with the declarative spec.",
@@ -56,7 +56,7 @@ CLAIMED = {
          "configurations; results compared as sets with the model scan and with an independent 27-image brute force, stored vectors solved for lattice offsets.",
          "Lean kernel + three standard axioms; harness/driver; 3-D assembly of the per-direction lemmas checked per configuration; 3-body grid scan order not modelled.",
          "6/C03"),
- "C11": ("Lean 4 proof about the passes of an executable model of OptionsHandler (accepted input is declared / has no missing REQUIRED / has only valid "
+ "C11": ("Lean 4 proof about the passes of an executable model of OptionsHandler and about the XML text layer (escape tables regenerated from XmlEscape by tools/translate/tr_c11.py: every escaped value / attribute value is read back unchanged) (accepted input is declared / has no missing REQUIRED / has only valid "
          "values, i.e. the three rejection clauses in contrapositive form for every tree; optional options absent; default injection per leaf; bool literals) + "
          "whole-tree correspondence with ProcessUserInput on every shipped calculator description",
          "Theorems quantify over every description and user tree; the model is tied to the working tree by running the real OptionsHandler on all 27 shipped "
@@ -142,7 +142,7 @@ CLAIMED = {
          "point-charge clusters judged on the implementation's output.",
          "Lean kernel + three standard axioms; witnesses for R and sqrt(3); PARTIAL: rotation invariance and the rank-2 point-charge limit searched numerically only.",
          "6/C15"),
- "C17": ("Lean 4 proof about a store model (association list with replace; induction over the store) and about the matrix hyperslab index maps (Nat arithmetic) "
+ "C17": ("Lean 4 proof about a store model (association list with replace; induction over the store; whole-history refinement to a plain map: run_refines, name_holds_last_write) and about the matrix hyperslab index maps (Nat arithmetic) "
          "+ correspondence: generated operation sequences on the real CheckpointFile under ASan, bit-identical comparison through fresh handles",
          "read_after_write, overwrite_replaces, write_other, missing_is_error, readonly_rejects_writer, read_pure, memIdx_inj, fileIdx_inj, hyperslab_roundtrip "
          "hold for all stores, keys, values, shapes and leading dimensions; tied to the working tree by replaying write / read / reopen sequences of all value "
